@@ -73,7 +73,7 @@ func Random(rng *rand.Rand, c RandomCfg) []Input {
 			continue
 		}
 		id++
-		o := abs.Op{ID: id, NI: nis[rng.Intn(len(nis))], Kind: kinds[rng.Intn(len(kinds))], NHs: []string{}}
+		o := abs.Op{ID: id, NI: nis[rng.Intn(len(nis))], Kind: kinds[rng.Intn(len(kinds))], NHs: []string{}, NoEID: true}
 		if c.ReusePct > 0 && id > 3 && rng.Intn(100) < c.ReusePct {
 			o.ID = 1 + uint64(rng.Intn(int(id)-1))
 		}
